@@ -13,6 +13,7 @@ import ApdVerif.Oracle.Ops
 import ApdVerif.Driver.Proto
 import ApdVerif.Model.Decompose
 import ApdVerif.Lemmas.SqrtDefs
+import ApdVerif.Model.TransObs
 /-!
 # Model driver: reads harness lines on stdin, runs the model and the specification oracles,
 prints one line per problem and a summary.  Core Lean only (compiled as `lean_exe driver`).
@@ -190,9 +191,33 @@ def sqrtObservation (id p emax emin traps mode xs tapes : String) : Option (List
     else some ([s!"{id} MISMATCH iter model= {if reach then showDec (Apd.SqrtD.iter c x).2 else "no-iterate"}"], 1, 0)
   else none
 
+/-- observation point inside `Context.Cbrt` (hook `verifTape("cbrt.iter", …)` after the Newton loop): the iterate the
+real loop ended with is compared, field by field, with `cbrtLastIter` — the intermediate value that
+`C11_cbrt_within_ulp` / `C11_cbrt_exact` reason about and from which the model's result is computed
+(`C11_cbrt_obs_factor`).  `T=` (no observation) must coincide with the model leaving before the end of the loop. -/
+def cbrtObservation (id p emax emin traps mode xs tapes : String) : Option (List String × Nat × Nat) := do
+  let c ← parseCtx p emax emin traps mode
+  let x := (← parseDec xs).d
+  match cbrtLastIter c x with
+  | none => some ([s!"{id} MISMATCH iter model= out of fuel"], 1, 0)
+  | some mz =>
+    if tapes == "T=" then
+      match mz with
+      | some z => some ([s!"{id} MISMATCH iter model= reaches the end of the loop with {showDec z}, the implementation did not"], 1, 0)
+      | none => some ([], 0, 0)
+    else if tapes.startsWith "T=b" then
+      let a := (← parseDec (tapes.drop 3).toString).d
+      if mz == some a then some ([], 0, 0)
+      else some ([s!"{id} MISMATCH iter model= {match mz with | some z => showDec z | none => "no-iterate"}"], 1, 0)
+    else none
+
 /-- handle one `ctxop` line; returns the problem lines -/
 def handleCtxOp (id : String) (t : List String) : Option (List String × Nat × Nat) :=
   match t with
+  | ["cbrt", p, emax, emin, traps, mode, xs, ys, ia, "=>", ds, fls, errs, auxs, tapes] => do
+    let core ← handleCtxOpCore id "cbrt" p emax emin traps mode xs ys ia ds fls errs auxs none
+    let obs ← cbrtObservation id p emax emin traps mode xs tapes
+    pure (core.1 ++ obs.1, core.2.1 + obs.2.1, core.2.2 + obs.2.2)
   | ["sqrt", p, emax, emin, traps, mode, xs, ys, ia, "=>", ds, fls, errs, auxs, tapes] => do
     let core ← handleCtxOpCore id "sqrt" p emax emin traps mode xs ys ia ds fls errs auxs none
     let obs ← sqrtObservation id p emax emin traps mode xs tapes
@@ -877,7 +902,9 @@ def handleParse (id : String) (t : List String) : Option (List String × Nat × 
       let fl ← fls.toNat?
       let e ← parseErr errs
       if !(parsedWF pd) then res := merge res (propfail id "C04" "a successfully parsed Decimal is ill-formed (negative coefficient or exponent outside the limits)")
-      if agree != "same" then res := merge res (propfail id "C14" "SetString, UnmarshalText and Scan disagree on acceptance")
+      if agree != "same" then
+        res := merge res (propfail id "C14" "SetString, UnmarshalText and Scan disagree on acceptance or on the parsed Decimal")
+        res := merge res (propfail id "C13" "UnmarshalText / Scan (fresh or reused destination) do not yield the Decimal that SetString yields for the same text")
       res := chkBase bk res
       if !(Apd.Spec.GdaNumeric str) then res := merge res (propfail id "C14" "a string outside the numeric-string grammar was accepted")
       match model with
